@@ -34,10 +34,10 @@ theorem trexp_3_cases (v : Vec 3 R) (M : Mat 3 3 R) (h : Gen.trexp_3 P v = .ok M
             (P.cos (P.sqrt (v 0 * v 0 + v 1 * v 1 + v 2 * v 2))) (P.sin (P.sqrt (v 0 * v 0 + v 1 * v 1 + v 2 * v 2)))) := by
   unfold Gen.trexp_3 at h; simp only [] at h
   generalize P.sqrt (v 0 * v 0 + v 1 * v 1 + v 2 * v 2) = n at *
-  split_ifs at h with h1 h2 <;> cases h
+  split_ifs at h with h1 <;> cases h
   · left; apply Mat.ext33' <;> simp [one3]
   · right
-    refine ⟨lt_trans (by norm_num) h2, ?_⟩
+    refine ⟨lt_of_lt_of_le (by norm_num) (not_lt.mp h1), ?_⟩
     apply Mat.ext33' <;> simp [rodM, mmul, skew3, one3, Fin.sum_univ_three] <;> ring
 
 /-- the unit vector v/|v| has unit length -/
